@@ -1,4 +1,5 @@
 """C03 - order lifecycle: one operation in flight, legal transitions, finality (simulation domain; live double in C11/C12)."""
+import common
 import simcheck
 
 META = {
@@ -22,7 +23,7 @@ META = {
                     "return to life (no bet id)"],
 }
 
-PROJECTION = {"R": True, "O": ["id", "status", "complete", "log", "betid", "sm", "avg", "canc", "laps", "void"], "Q": True}
+PROJECTION = {"R": True, "O": ["id", "status", "complete", "log", "betid", "sm", "avg", "canc", "laps", "void"], "Q": True, "F": True}
 
 LEGAL = {
     (None, "PENDING"), (None, "VIOLATION"),
@@ -167,11 +168,56 @@ class Oracle(simcheck.BaseOracle):
         if any(len([s for s in o.status_log if s.name == "EXECUTION_COMPLETE"]) and o.status_log[-1].name == "EXECUTION_COMPLETE"
                and any(s.name in ("CANCELLING", "UPDATING", "REPLACING") for s in o.status_log) for o in run.orders):
             t.add("completed-after-request")
+        # the assumption of the whole-run theorem (Lemmas/Flight.lean): every request through the order's own market
+        t.add("foreign-request" if run.foreign else "all-requests-through-own-market")
         return t
 
 
 def make_oracle(sc):
     return Oracle(sc)
+
+
+def foreign_scenarios():
+    """the request the whole-run theorem excludes, on the real framework: an order placed again through ANOTHER market while its
+    placement is in flight is accepted (the already-placed test looks at the blotter of the transaction's market) - and the model
+    says the same (Lean `example` nvForeign); a cancel through another market of an executable order"""
+    import directed as d
+    out = []
+    for second in ("place", "cancel"):
+        m1 = d.market(101, [d.update(d.T0, d.two(), acts={"0": [d.create(0, 0, 1, "BACK", 3.0, 4.0), ["place", "o0", None, False],
+                                                              d.create(1, 1, 1, "BACK", 3.5, 4.0), ["place", "o1", None, False]]}),
+                            d.update(d.T0 + 400, d.two())])
+        req = ["place", "o0", None, True] if second == "place" else ["cancel", "o0", None, True]
+        m2 = d.market(102, [d.update(d.T0 + (10 if second == "place" else 410), d.two(), acts={"0": [req]}),
+                            d.update(d.T0 + 420, d.two())])
+        out.append((second, d.scenario([m1, m2], event_processing=True)))
+    return out
+
+
+def foreign_domain(res, model_ok):
+    import simworld
+    for name, sc in foreign_scenarios():
+        lines, _ = simworld.model_lines(sc)
+        r = simworld.Run(sc).run()
+        impl = [l for _, l in r.out]
+        res.evaluations += len(impl)
+        res.distribution["foreign-request-run:%s" % name] += 1
+        if r.crash:
+            res.disagree({"request": "foreign-request run (%s)" % name, "model": "-", "implementation": "crash: %s" % r.crash[:300]})
+            continue
+        if not model_ok:
+            continue
+        model = [l for l in common.run_driver(lines, strict=False) if l != ""]
+        for i, (a, b) in enumerate(zip(model, impl)):
+            if not simworld.tokens_close(a, b):
+                res.disagree({"request": "foreign-request run (%s), update %d" % (name, i), "model": a[:1500], "implementation": b[:1500],
+                              "fields": simworld.diff_fields(a, b)})
+                break
+        else:
+            res.nontrivial.add("foreign:" + name)
+            if not any(l.endswith(" F 1") for l in impl):
+                res.disagree({"request": "foreign-request run (%s)" % name, "model": model[-1][-200:], "implementation": impl[-1][-200:],
+                              "fields": ["the foreign request was not counted"]})
 
 
 def run(res, tier, seed, model_ok, search):
@@ -182,6 +228,8 @@ def run(res, tier, seed, model_ok, search):
                 "400 / 6000 random op sequences over 1-3 real BetdaqOrders (requests in every status, place / cancel / update handlers "
                 "with shuffled, missing and failed responses, order-stream updates with every Betdaq status and sequence number)")
     simcheck.run(res, "C03", tier, seed, model_ok, search, n_quick=400, n_thorough=10000)
+    # the one kind of request the whole-run theorem assumes away, model against the real framework
+    foreign_domain(res, model_ok)
     # live-exchange double (the histories of C11): an order never becomes live again after it was reported complete, and is
     # not reported complete while it still rests at the exchange
     from props import C11
